@@ -15,6 +15,7 @@ N1  "extract helper": a private function / method that is NOT in the inventory o
 N2  `x = a if c else b`  ->  `if c: x = a` / `else: x = b`   (conditional expression on the right-hand side of an assignment,
     also when it is the first-evaluated operand of the right-hand side:  `x = (a if c else b) > 0`).
 N3  `x = []` ; `for T in IT: x.append(E)`  ->  `x = [E for T in IT]`   (the loop spelling of a list comprehension).
+N4  `A[k] = A[k] + e`  ->  `A[k] += e`   (read-modify-write of one array cell; never for plain names, where the two differ).
 
 Nothing else is rewritten; line numbers of the surviving nodes are kept, inlined statements carry the line of the call.
 """
@@ -505,11 +506,45 @@ def inline_new_helpers(tree: ast.Module, modname: str) -> List[str]:
     return notes
 
 
+# --------------------------------------------------------------------------------------------- N4
+
+class _CellAugAssign(ast.NodeTransformer):
+    """`A[k] = A[k] + e`  ->  `A[k] += e`  (also `e + A[k]`, and `-`, `*`): the read-modify-write of ONE array cell.  Only
+    subscript targets: for a plain name `a = a + e` builds a new object while `a += e` changes the old one in place."""
+    def visit_Assign(self, node: ast.Assign):
+        self.generic_visit(node)
+        if len(node.targets) == 1 and isinstance(node.targets[0], ast.Subscript) and isinstance(node.value, ast.BinOp) \
+                and isinstance(node.value.op, (ast.Add, ast.Sub, ast.Mult)):
+            t = ast.dump(_load(node.targets[0]))
+            v = node.value
+            other = None
+            if ast.dump(v.left) == t:
+                other = v.right
+            elif isinstance(v.op, (ast.Add, ast.Mult)) and ast.dump(v.right) == t:
+                other = v.left
+            if other is not None and not any(ast.dump(x) == t for x in ast.walk(other)):
+                return ast.copy_location(ast.AugAssign(target=node.targets[0], op=v.op, value=other), node)
+        return node
+
+
+def _load(e: ast.AST) -> ast.AST:
+    e2 = copy.deepcopy(e)
+    for n in ast.walk(e2):
+        if hasattr(n, "ctx"):
+            n.ctx = ast.Load()
+    return e2
+
+
+def cell_augassign(node: ast.AST) -> ast.AST:
+    return _CellAugAssign().visit(node)
+
+
 def normalise(tree: ast.Module, modname: str) -> List[str]:
     if os.environ.get("GBSA_NO_NORMALIZE"):
         return []
     notes = inline_new_helpers(tree, modname)
     _IfExpAssign().visit(tree)
     _loop_append_to_comprehension(tree)
+    _CellAugAssign().visit(tree)
     ast.fix_missing_locations(tree)
     return notes
